@@ -242,6 +242,26 @@ for _pid, _t in _MORE6.items():
         _MORE[_pid] = (_MORE[_pid][0] + _t, _MORE[_pid][1])
     else:
         _MORE[_pid] = (_t, '')
+_MORE78 = {
+    'C02': '; closure-id scope; CX index language of the pattern literals (0-based witnesses); bare-H token written only for one hydrogen',
+    'C03': '; sibling options of create_molecule / create_reaction (effective keyword-or-default values); CX index language',
+    'C05': '; pyrrole-pair threshold evaluated for 0 / 2 / 4; view-signature lint H13',
+    'C06': '; pid replace-or-extend; ring mark is a bool; canonical ring orientation by evaluating return expressions over positions',
+    'C07': '; scratch-map clearing of the .pyx per candidate; stereo gates of QueryIsomorphism.get_mapping (for-else dominance of every yield)',
+    'C08': '; ring mark is a bool; stereo gates; argument/parameter affinity lint H14',
+    'C09': '; isotope window of the query encoder; loops over the ring-size set run to the end',
+    'C10': '; half-float decoder paths and encoder exponent offset tracking (.pyx bodies parsed as statements)',
+    'C11': '; first M END wins; property lines address atoms by enumerate position',
+    'C14': '; overlap atoms of the metal-organic rules',
+    'C15': '; fragment counter arithmetic',
+    'C18': '; class-level cached values read no per-instance state',
+    'C20': '; index inverse of the RDKit bridge',
+}
+for _pid, _t in _MORE78.items():
+    if _pid in _MORE:
+        _MORE[_pid] = (_MORE[_pid][0] + _t, _MORE[_pid][1])
+    else:
+        _MORE[_pid] = (_t, '')
 for _pid, (_t, _x) in _MORE.items():
     if _pid in CLAIMS:
         _c = CLAIMS[_pid]
